@@ -452,10 +452,11 @@ fn check(prop: &str, tier: Tier, procs: u64) -> i32 {
         std::env::set_var("VERIF_COUNTER_FILE", &counter_path);
     }
     if std::env::var("VERIF_PRESCREEN_MS").is_err() {
-        std::env::set_var("VERIF_PRESCREEN_MS", if tier == Tier::Quick { "2500" } else { "10000" });
+        // anything slower than the pre-screen's limit is replaced anyway: stop waiting shortly after
+        std::env::set_var("VERIF_PRESCREEN_MS", if tier == Tier::Quick { "500" } else { "1700" });
     }
     if std::env::var("VERIF_PRESCREEN_SLOW_MS").is_err() {
-        std::env::set_var("VERIF_PRESCREEN_SLOW_MS", if tier == Tier::Quick { "400" } else { "3000" });
+        std::env::set_var("VERIF_PRESCREEN_SLOW_MS", if tier == Tier::Quick { "400" } else { "1500" });
     }
     let children: Vec<_> = (0..procs)
         .map(|i| {
